@@ -17,10 +17,10 @@ ASSUMPTIONS = ["separation precondition 2*delta*T + 2e-6 (two convergence errors
                "known finding tie-split-by-convergence is recognised by mechanism: reported list is a non-empty subset of the exact optimal set, "
                "every omitted action is an exact tie and its reported float rounds to a different 6-digit cell than the listed ones"]
 TIMEOUT = 1800
-TABLE = [("G-TIE", 600), ("G-TIEC", 500), ("G-ACY", 500), ("G-CYC", 500), ("G-EC", 300), ("G-DEAD", 300), ("G-LEX", 150), ("G-ACYNF", 300), ("G-CYCNF", 300), ("G-TINYB", 150), ("G-INIT0NF", 100), ("G-SLOW", 200), ("G-NEAR", 400), ("G-NEARC", 300), ("G-DUPL", 300), ("G-MIX", 500), ("G-SMALLX", 300), ("G-VSLOWR", 3), ("G-EMPTY", 300), ("G-GAP", 500), ("G-GAPLOOP", 100), ("G-DIGIT", 150), ("G-RETRY", 150)]
+TABLE = [("G-TIE", 600), ("G-TIEC", 500), ("G-ACY", 500), ("G-CYC", 500), ("G-EC", 300), ("G-DEAD", 300), ("G-LEX", 150), ("G-ACYNF", 300), ("G-CYCNF", 300), ("G-TINYB", 150), ("G-INIT0NF", 100), ("G-SLOW", 200), ("G-NEAR", 400), ("G-NEARC", 300), ("G-DUPL", 300), ("G-MIX", 500), ("G-SMALLX", 300), ("G-VSLOWR", 3), ("G-EMPTY", 300), ("G-GAP", 500), ("G-GAPLOOP", 100), ("G-DIGIT", 150), ("G-RETRY", 150), ("G-FINREP", 300)]
 
 
-def plan(tier, seed):
+def _plan_base(tier, seed):
     return sc.plan_classes(tier, TABLE)
 
 
@@ -72,7 +72,16 @@ def decide(gd, idx, cls):
     return res
 
 
+def plan(tier, seed):
+    from . import threads_common
+    return threads_common.plan_threads(tier) + _plan_base(tier, seed)
+
+
 def run_batch(batch):
+    if batch["cls"] == "THREADS":
+        from . import threads_common
+        yield from threads_common.run(batch, PID, ["reachability_strategies"], EMIT_START, 'solve', None)
+        return
     monitors.install()
     monitors.MON.flags.update(alias=False, prune=False)
     for idx, gd in sc.iter_games(batch, PID, EMIT_START):
@@ -83,6 +92,9 @@ def run_batch(batch):
 
 
 def replay(case):
+    if "threads" in case:
+        from . import threads_common
+        return threads_common.replay(case, PID, ["reachability_strategies"], 'solve', None)
     monitors.install()
     return decide(games.dec_game(case["game"]), 0, "REPLAY")
 
